@@ -869,3 +869,15 @@ Module SVExample.
     find_signature signed_u = Err (EOther "invalid-c14n-method").     (* whatever the crypto values: before any oracle is asked *)
   Proof. split; vm_compute; reflexivity. Qed.
 End SVExample.
+
+(* Build.sign_element = SigningContext, ConstructSignature, re-assembly: the theorems above apply to its result *)
+Lemma sign_element_inv cfg k el crypto signed :
+  sign_element cfg k el crypto = ORet (Ok signed) ->
+  exists cx el' sg,
+    signing_context cfg k = ORet (Ok cx) /\ construct_signature cx el crypto = ORet (Ok (el', sg)) /\
+    sign_placement el' sg = ORet (Ok signed).
+Proof.
+  unfold sign_element. destruct (signing_context cfg k) as [[cx|e]|w]; try discriminate.
+  destruct (construct_signature cx el crypto) as [[[el' sg]|e]|w] eqn:EC; try discriminate.
+  intros H. exists cx, el', sg. split; [reflexivity|]. split; [first [reflexivity | exact EC]|exact H].
+Qed.
